@@ -127,6 +127,9 @@ type tcore struct {
 	staticFrom   int // depth of the frame that executed the outermost STATICCALL, 0 = not static
 	staticWrite  bool
 	createLowGas bool // CREATE/CREATE2 executed in a frame whose contract.Gas is tiny (S15 shape)
+	// a contract created in this transaction created again / an address was created twice: both
+	// depend on the nonce a fresh contract starts with (S16 shape)
+	createByCreated, recreate bool
 	writes       bool
 	nested       bool
 	creates      bool
@@ -245,7 +248,7 @@ func compareResults(a, b *result) []diff {
 	if a.class != b.class {
 		ds = append(ds, diff{"class", "", fmt.Sprintf("outcome class: in-tree %s (%s), reference %s (%s)", a.class, a.errText, b.class, b.errText)})
 	}
-	if !bytes.Equal(a.ret, b.ret) && !(a.class == "failure" && b.class == "failure") {
+	if !bytes.Equal(a.ret, b.ret) {
 		ds = append(ds, diff{"return", "", fmt.Sprintf("return data: in-tree %s, reference %s", short(fmt.Sprintf("%x", a.ret)), short(fmt.Sprintf("%x", b.ret)))})
 	}
 	if a.created != b.created {
@@ -416,6 +419,14 @@ func runCase(leg string) func(c EVMCase, x *h.Ctx) {
 					nonceHit = d.msg
 					continue
 				}
+				// a created contract with nonce 0, no balance and no code is "empty" and swept by
+				// Finalise(true); with nonce 1 it stays
+				if ra, ok := rf.accounts[d.addr]; d.kind == "account" && ok && isCreatedIn(d.addr, it.tr) && ra.Nonce == 1 && ra.Balance == "0" && ra.Code == "" && len(ra.Storage) == 0 {
+					if _, in := it.accounts[d.addr]; !in {
+						nonceHit = d.msg
+						continue
+					}
+				}
 				rest = append(rest, d)
 			}
 			if nonceHit != "" {
@@ -438,6 +449,9 @@ func runCase(leg string) func(c EVMCase, x *h.Ctx) {
 			case it.tr.createLowGas:
 				sig = sigS15
 				detail = "a CREATE/CREATE2 executed in a frame reached by a CALL-family instruction (callee contract.Gas is 0 because baseGas* never set callGasTemp, the code-deposit charge is taken from it): " + detail
+			case leg == "deployed" && (it.tr.createByCreated || it.tr.recreate):
+				sig = sigS16Nonce
+				detail = fmt.Sprintf("as deployed (MainnetChainConfig, block %d: pre-EIP-158 rules) a contract created in this transaction starts with nonce 0 and then created again / its address was created a second time: ", c.Number) + detail
 			case leg == "deployed" && it.tr.staticWrite:
 				sig = sigS16Static
 				detail = fmt.Sprintf("as deployed (MainnetChainConfig, block %d: pre-Byzantium rules) a state-modifying instruction executed inside a STATICCALL: ", c.Number) + detail
